@@ -1135,8 +1135,13 @@ pub extern "C" fn recv_time_limit(fd: c_int) -> u64 {
 }
 
 pub(crate) fn get_time_limit(tv: &libc::timeval) -> u64 {
-    let mut time_limit = u64::try_from(tv.tv_sec)
-        .expect("overflow")
+    // Linux accepts a negative tv_sec (setsockopt answers 0) and stores a zero timeout: operations
+    // on the socket time out at once. Zero stands for "no limit" here, so the shortest limit takes
+    // its place: the call is tried once and gives up at the first would-block.
+    let Ok(sec) = u64::try_from(tv.tv_sec) else {
+        return 1;
+    };
+    let mut time_limit = sec
         .saturating_mul(1_000_000_000)
         .saturating_add(
             u64::try_from(tv.tv_usec)
